@@ -299,6 +299,8 @@ def norm(v):
 def make_case(i, rng, tier):
     if rng.random() < 0.02:
         return {"fam": "same-name"}
+    if rng.random() < 0.08:
+        return gen_join(rng)
     if rng.random() < 0.04:
         return {"fam": "shadow", "spelling": rng.choice(["Optional['{N}']", "'{N}'", "List['{N}']", "'Optional[{N}]'"]), "kind": rng.choice(["local", "nested", "redefined"])}
     shape = gen_shape(rng)
@@ -385,7 +387,81 @@ def run_shadow(case, ctx):
         sys.modules.pop(mod.__name__, None)
 
 
+JOIN_WRAP = {"opt": ("Optional[{}]", "None", lambda x: x), "list": ("List[{}]", "Field(default_factory=list)", lambda x: [x]),
+             "dict": ("Dict[str, {}]", "Field(default_factory=dict)", lambda x: {"k": x}), "plain": ("{}", "None", lambda x: x)}
+
+
+def gen_join(rng):
+    """a data class with 2-3 data-class bases, each holding a reference to a leaf class that is defined later;
+    which class is used first, which inherited fields the first input gives, and how each reference is spelled vary"""
+    nb = rng.choice([2, 2, 3])
+    bases = [{"wrapper": rng.choice(list(JOIN_WRAP)), "spell": rng.choice(["name", "name", "whole", "direct"])} for _ in range(nb)]
+    use = rng.sample(["J"] + list(range(nb)), rng.choice([1, 1, 2]))
+    if "J" not in use:
+        use.append("J")
+    return {"fam": "join", "bases": bases, "use": use, "give": [rng.random() < 0.7 for _ in range(nb)], "leaves_first": rng.random() < 0.3}
+
+
+def run_join(case, ctx):
+    uid = next(_uid)
+    nb = len(case["bases"])
+    head = "from typing import List, Optional, Dict\nfrom utype import Schema, Field\n"
+    leaves = "".join(f"class Leaf{k}_{uid}(Schema):\n    v: int\n\n" for k in range(nb))
+    body = ""
+    for k, b in enumerate(case["bases"]):
+        tmpl, default, _ = JOIN_WRAP[b["wrapper"]]
+        leaf = f"Leaf{k}_{uid}"
+        if b["spell"] == "direct" and not case["leaves_first"]:
+            spell = "name"
+        else:
+            spell = b["spell"]
+        ann = tmpl.format(leaf) if spell == "direct" else (tmpl.format(repr(leaf)) if spell == "name" else repr(tmpl.format(leaf)))
+        body += f"class Base{k}_{uid}(Schema):\n    f{k}: {ann} = {default}\n\n"
+    body += f"class Join_{uid}({', '.join(f'Base{k}_{uid}' for k in range(nb))}):\n    title: str = ''\n\n"
+    src = head + (leaves + body if case["leaves_first"] else body + leaves)
+    mod = types.ModuleType("vmon_c17_join%d" % uid)
+    sys.modules[mod.__name__] = mod
+    try:
+        o = run(lambda: exec(compile(src, "<c17-join>", "exec"), mod.__dict__))
+        ctx.count("variants")
+        sig = ("join", tuple((b["wrapper"], b["spell"]) for b in case["bases"]), tuple(str(u) for u in case["use"]), tuple(case["give"]), case["leaves_first"])
+        if not o.ok:
+            ctx.violation(f"C17/declaration-fails/join/{type(o.exc).__name__}", f"multiple inheritance system: declaration raised {o!r}", {"source": src}, sig=sig)
+            return
+        ns = mod.__dict__
+        for u in case["use"]:
+            if u == "J":
+                data, exp = {"title": "t"}, {"title": "t"}
+                for k, b in enumerate(case["bases"]):
+                    wrap = JOIN_WRAP[b["wrapper"]][2]
+                    if case["give"][k]:
+                        data[f"f{k}"] = wrap({"v": str(k + 3)})
+                        exp[f"f{k}"] = wrap({"v": k + 3})
+                    else:
+                        exp[f"f{k}"] = {"opt": None, "plain": None, "list": [], "dict": {}}[b["wrapper"]]
+                cls = ns[f"Join_{uid}"]
+            else:
+                b = case["bases"][u]
+                wrap = JOIN_WRAP[b["wrapper"]][2]
+                data, exp = {f"f{u}": wrap({"v": "9"})}, {f"f{u}": wrap({"v": 9})}
+                cls = ns[f"Base{u}_{uid}"]
+            for rep in (1, 2):
+                out = run(lambda: norm(dict(cls.__from__(_copy(data)))))
+                ctx.count("parses")
+                if not out.ok or out.value != norm(exp):
+                    ctx.violation("C17/outcome-depends-on-first-use-or-spelling/multiple-inheritance",
+                                  f"class with {nb} bases that each name a later class ({[b['spell'] + ':' + b['wrapper'] for b in case['bases']]}), first uses {case['use']}: "
+                                  f"{cls.__name__} call {rep} on {short(data, 100)} -> {out!r}; the shape determines {short(exp, 100)}",
+                                  {"source": src, "first_use_order": [str(u) for u in case["use"]], "call": rep, "observed": repr(out)}, sig=sig)
+                    return
+        ctx.held(sig)
+    finally:
+        sys.modules.pop(mod.__name__, None)
+
+
 def run_case(case, ctx):
+    if case["fam"] == "join":
+        return run_join(case, ctx)
     if case["fam"] == "same-name":
         return run_same_name(ctx)
     if case["fam"] == "shadow":
